@@ -85,7 +85,7 @@ POOL = [SurfaceT4(T4S.PLANEX, [1.0], ['a']), SurfaceT4(T4S.PLANEX, [1.0], ['b'])
         SurfaceT4(T4S.TORUSZ, [0, 0, 0, 3, 1, 1])]
 
 
-@contract(DUP.remove_duplicate_surfaces, props=['C13', 'C08'], name='Duplicates.remove_duplicate_surfaces', status='B')
+@contract(DUP.remove_duplicate_surfaces, props=['C13', 'C08', 'C16'], name='Duplicates.remove_duplicate_surfaces', status='B')
 class _Dedup:
     """renumbering[k] is a kept id whose surface equals surface k (same type, parameters and transform); kept
     surfaces are pairwise unequal; every id is renumbered; the kept dictionary holds exactly the representatives."""
@@ -122,6 +122,10 @@ class _Dedup:
         yield 'kept-surfaces-pairwise-different', all(not same(kept[a], kept[b]) for i, a in enumerate(keys)
                                                       for b in keys[i + 1:])
         yield 'kept-are-representatives', set(keys) == set(ren.values()) and all(ren[k] == k for k in keys)
+        # C16 (boundary-condition entries keep the MCNP number): among equal surfaces the smallest number survives,
+        # whatever the order of insertion -- known finding F5 is exactly the complementary case
+        yield 'smallest-number-of-equal-surfaces-is-kept', all(ren[k] == min(j for j in ids if same(d[j], d[k]))
+                                                               for k in ids)
 
 
 @contract(DUP.renumber_surfaces, props=['C13', 'C08'], name='Duplicates.renumber_surfaces', status='B')
